@@ -1,0 +1,22 @@
+//go:build verif
+
+package ipa
+
+import "github.com/crate-crypto/go-ipa/bandersnatch/fr"
+
+// VerifTables returns the live weight tables (not copies; verification only).
+func (preComp *PrecomputedWeights) VerifTables() (barycentricWeights, invertedDomain []fr.Element) {
+	return preComp.barycentricWeights, preComp.invertedDomain
+}
+
+// VerifLabels returns the live Fiat-Shamir label slices in a fixed order
+// (verification only).
+func VerifLabels() [][]byte {
+	return [][]byte{labelDomainSep, labelC, labelInputPoint, labelOutputPoint, labelW, labelL, labelR, labelX}
+}
+
+// VerifNumRounds returns the number of IPA rounds of the configuration.
+func (ic *IPAConfig) VerifNumRounds() uint32 { return ic.numRounds }
+
+// VerifMaxEvalPointInsideDomain returns the in-domain/out-of-domain boundary.
+func VerifMaxEvalPointInsideDomain() fr.Element { return maxEvalPointInsideDomain }
